@@ -72,6 +72,36 @@ class Lin:
                 o = ins["ops"][0]
             elif ins["op"] in ("bitcast", "addrspacecast"):
                 o = ins["ops"][0]
+            elif ins["op"] == "phi" and len(ins.get("inc", ())) == 2 and depth < 60:
+                # a pointer that walks a buffer: p = phi(base + k, p + stride). Its current position is named by (loop header,
+                # stride), so that two pointers advancing in lockstep (`c += 64; m += 64`) get the same symbolic offset.
+                me = o[1]
+                step = init = None
+                for v, _b in ins["inc"]:
+                    q, acc, plain = v, 0, True
+                    for _ in range(8):
+                        if q[0] != "v":
+                            break
+                        d = self.insts[q[1]]
+                        if d["op"] == "getelementptr" and not d.get("var") and d.get("off") is not None:
+                            acc += d["off"]
+                            q = d["ops"][0]
+                        elif d["op"] == "bitcast":
+                            q = d["ops"][0]
+                        else:
+                            break
+                    if q[0] == "v" and q[1] == me:
+                        step = acc
+                    else:
+                        init = v
+                if step is None or init is None or not step:
+                    break
+                a0 = self.addr(init, depth + 1)
+                if a0 is None or a0[2]:
+                    break
+                key = ("pp", ins["b"], step)
+                var[key] = var.get(key, 0) + 1
+                return a0[0], const + a0[1], {k: v for k, v in var.items() if v}
             else:
                 break
             depth += 1
@@ -197,6 +227,9 @@ class Hazards:
             lo = const
             openend = False
             for v, s in var.items():
+                if isinstance(v, tuple):
+                    base[v] = s            # walking pointer: (loop header, stride)
+                    continue
                 ins = fn.insts[v]
                 if ins["op"] == "phi" and s > 0:
                     # inner counter: starts at a constant (folded into lo), grows upwards
@@ -283,7 +316,8 @@ class Hazards:
                 wlo, whi, rlo, rhi = w[3], w[4], r[3], r[4]
                 if whi is None or not (rlo < whi and (rhi is None or wlo < rhi)):
                     continue
-                blocked = {fn.insts[v]["b"] for v, _s in w[2] if fn.insts[v]["op"] == "phi"}
+                blocked = {fn.insts[v]["b"] for v, _s in w[2] if not isinstance(v, tuple) and fn.insts[v]["op"] == "phi"} | \
+                    {v[1] for v, _s in w[2] if isinstance(v, tuple)}
                 if self.reach(fn, w[0], r[0], blocked):
                     out.append((w, r))
         return acc, out
